@@ -96,6 +96,18 @@ example : stF c04WorldU c04CfgU (.coll .list .int) (.str "1x") = Option.none ∧
 example : stD c04WorldU c04CfgU (.coll .list .int) (.str "12") = .ok (.coll .list [.int 1, .int 2]) := by
   simp [stD, iterItems, Leaf.stLD_coll, leafItems, stLDL, stLD, Obj.toInt?, SK.structTo, CK.isSet, parseInt?,
     digitsVal, isDigit, Ty.isAny, mkColl, hashable]
+/-- mapping target classes: `structure({"a": "2", "b": 1}, Counter[str])` is the `Counter({'a': 2, 'b': 1})` in BOTH modes
+(a fast template that fed `Counter` an iterable of pairs would return `Counter({('a', 2): 1, ('b', 1): 1})`) -/
+example : stF exWorld { exCfg with forbid := false } (.map .counter .str .int) (.dict [(.str "a", .str "2"), (.str "b", .int 1)])
+      = some (.mdict .counter [(.str "a", .int 2), (.str "b", .int 1)])
+    ∧ stD exWorld { exCfg with forbid := false } (.map .counter .str .int) (.dict [(.str "a", .str "2"), (.str "b", .int 1)])
+      = .ok (.mdict .counter [(.str "a", .int 2), (.str "b", .int 1)]) := by
+  constructor
+  · simp [stF, stFKV, exCfg, pyStr, Obj.toInt?, parseInt?, isDigit, digitsVal, keysOf, hashableL, hashable, mapRes, mkMapObj,
+      MK.target, mkDict, dictSet, Obj.pyEq, Obj.num2?]
+  · simp [stD, stDKV, exCfg, pyStr, Obj.toInt?, parseInt?, isDigit, digitsVal, hashable, mapRes, mkMapObj,
+      MK.target, mkDict, dictSet, Obj.pyEq, Obj.num2?]
+
 end Examples
 
 end CattrsModel
